@@ -78,22 +78,7 @@ mod verif_c03_param_decode {
         kani::cover!(x == 0x2ab2, "C03.param.value.sup.reach_grease");
     }
 
-    /// RFC 9000 §16: length of a variable-length integer from its first byte
-    fn varint_len(first: u8) -> usize {
-        1usize << (first >> 6)
-    }
-
-    /// RFC 9000 §16 / A.1: value of the variable-length integer at the start of `b` (caller checked the length)
-    fn varint_val(b: &[u8]) -> u64 {
-        let n = varint_len(b[0]);
-        let mut v = (b[0] & 0x3f) as u64;
-        let mut i = 1;
-        while i < n {
-            v = (v << 8) | b[i] as u64;
-            i += 1;
-        }
-        v
-    }
+    //@include varint_spec.rs
 
     fn is_incomplete<T>(r: &nom::IResult<&[u8], T>) -> bool {
         matches!(r, Err(nom::Err::Incomplete(_)))
@@ -105,6 +90,7 @@ mod verif_c03_param_decode {
     /// lengthen the `take(length)` slice.
     #[kani::proof]
     #[kani::unwind(10)]
+    #[kani::stub(crate::varint::be_varint, be_varint_spec)]
     fn raw_parameter_contract() {
         const N: usize = 18;
         let buf: [u8; N] = kani::any();
@@ -151,6 +137,7 @@ mod verif_c03_param_decode {
     /// truncated one.
     #[kani::proof]
     #[kani::unwind(10)]
+    #[kani::stub(crate::varint::be_varint, be_varint_spec)]
     fn value_integer_contract() {
         let buf: [u8; 9] = kani::any();
         let n: usize = kani::any();
@@ -200,6 +187,7 @@ mod verif_c03_param_decode {
     /// `assert!(remain.is_empty())`. Witness blob e.g. [0x04, 0x02, 0x00, 0x00] (initial_max_data, len 2).
     #[kani::proof]
     #[kani::unwind(10)]
+    #[kani::stub(crate::varint::be_varint, be_varint_spec)]
     fn value_integer_surplus() {
         let buf: [u8; 9] = kani::any();
         let n: usize = kani::any();
@@ -267,6 +255,7 @@ mod verif_c03_param_decode {
         }
         kani::cover!(n == 0, "C03.param.value.bytes.reach_empty");
         kani::cover!(n == 4, "C03.param.value.bytes.reach_4");
+        std::mem::forget(r); // dropping a `Bytes` is a call through its vtable (tool cost only)
     }
 
     // ------------------------------------------------------------------------------------------------------
